@@ -325,7 +325,7 @@ def writesF (deflate : Bytes → Bytes) : FWriter → List (Bytes × Option Nat)
     (w2, e :: es)
 
 /-- what the caller of a session sees and what it leaves on disk -/
-structure Outcome where
+structure SessionResult where
   disk : Bytes
   createErr : Option FErr
   writeErrs : List (Option FErr)
@@ -334,7 +334,7 @@ structure Outcome where
 
 /-- `CreateLevel; Write…; Close` under a fault pattern -/
 def runSession (H : Bytes → Bytes) (d : Nat) (deflate : Bytes → Bytes) (r q : Bytes) (s : Session) :
-    Outcome :=
+    SessionResult :=
   let (w0, ce) := createF d r q s.create
   let (w1, wes) := writesF deflate w0 s.writes
   let (disk, cle) := closeF H d deflate w1 s.close
@@ -344,7 +344,7 @@ def runSession (H : Bytes → Bytes) (d : Nat) (deflate : Bytes → Bytes) (r q 
 def Session.written (s : Session) : Bytes := (s.writes.map (·.1)).flatten
 
 /-- the caller saw no error at all -/
-def Outcome.clean (o : Outcome) : Bool :=
+def SessionResult.clean (o : SessionResult) : Bool :=
   o.createErr.isNone && o.writeErrs.all (·.isNone) && o.closeErr.isNone
 
 end Gts.Cache
